@@ -208,8 +208,15 @@ class Importance(CellModifierInput):
             for particle in self._particle_importances:
                 if not self._particle_importances[particle]:
                     continue
+                # the values, with shortcuts expanded
+                values = list(self._particle_importances[particle]["data"])
                 for i, cell in enumerate(self._problem.cells):
-                    value = self._particle_importances[particle]["data"][i]
+                    if i >= len(values):
+                        raise MalformedInputError(
+                            self._input,
+                            f"The importance input for {particle} gives {len(values)} values for {len(self._problem.cells)} cells",
+                        )
+                    value = values[i]
                     # force generating the default tree
                     cell.importance[particle] = value.value
                     # replace default ValueNode with actual valueNode
